@@ -459,7 +459,8 @@ Fixpoint parse_sections (fuel : nat) (bs : list Z) (st : pstate) : pres pstate :
       match u32 r0 with
       | None => PStructError
       | Some (slen, r1) =>
-        let '(body, rest, over) := take slen r1 in
+        (* the slice is clamped to the input so that a huge length field costs nothing *)
+        let '(body, rest, over) := take (Z.min slen (len r1 + 1)) r1 in
         if over then PExit else
         let seen := ty :: ps_seen st in
         pbind
